@@ -165,7 +165,10 @@ def branches(h: Func) -> List[Tuple[List[str], ast.If]]:
     for st in flat(h.node.body):
         if isinstance(st, ast.If):
             names: List[str] = []
+            negated = {id(y) for x in ast.walk(st.test) if isinstance(x, ast.UnaryOp) and isinstance(x.op, ast.Not) for y in ast.walk(x.operand)}
             for n in ast.walk(st.test):
+                if id(n) in negated:
+                    continue  # `... and not isinstance(v, type)` excludes a type, it does not select it
                 if isinstance(n, ast.Call) and unparse(n.func) == "isinstance" and len(n.args) == 2:
                     t = n.args[1]
                     names += [unparse(x) for x in (t.elts if isinstance(t, ast.Tuple) else [t])]
@@ -450,6 +453,80 @@ def run(ctx: Ctx) -> None:
         rep.rule("C05.R12", "as C01.R4: tracked variables of every supported plain type reach the value hasher (a type classified as external is hashed by its name only: "
                             "two values of the variable share a signature), each structural option governs its own types")
         tracked_type_table(ctx, "C05.R12")
+    # ---- R13: the dataclass branch is for instances ---------------------------------------------------------------------------
+    rep.rule("C05.R13", "the dataclass branch of the value hasher applies to instances only (`dataclasses.is_dataclass` is also true for the class itself, whose fields "
+                        "have no value: getattr raises AttributeError instead of the coded TYPE_NOT_SUPPORTED)")
+    n13 = 0
+    for names_, br_, bf_ in brs:
+        if "<dataclass>" not in names_:
+            continue
+        n13 += 1
+        vp = value_param(bf_, ctx)
+        t_ = br_.test
+        atoms_ = t_.values if isinstance(t_, ast.BoolOp) and isinstance(t_.op, ast.And) else [t_]
+        inst_only = any(
+            (isinstance(a_, ast.UnaryOp) and isinstance(a_.op, ast.Not) and isinstance(a_.operand, ast.Call) and unparse(a_.operand.func) in ("isinstance", "inspect.isclass")
+             and a_.operand.args and unparse(a_.operand.args[0]) == vp and (unparse(a_.operand.func) == "inspect.isclass" or unparse(a_.operand.args[1]) == "type"))
+            for a_ in atoms_) or any(isinstance(x, ast.Call) and unparse(x.func).endswith("is_dataclass") and x.args and unparse(x.args[0]) == f"type({vp})" for x in ast.walk(t_))
+        # an earlier branch that sends classes away (raise / return) also does
+        earlier = any(isinstance(st, ast.If) and st.lineno < br_.lineno and any(isinstance(x, ast.Call) and unparse(x.func) in ("isinstance", "inspect.isclass") and x.args
+                      and unparse(x.args[0]) == vp and (unparse(x.func) == "inspect.isclass" or (len(x.args) > 1 and unparse(x.args[1]) == "type")) for x in ast.walk(st.test))
+                      for st in bf_.node.body)
+        desc = "the dataclass branch is taken for dataclass instances, not for dataclass types"
+        if inst_only or earlier:
+            rep.ok("C05.R13", bf_.qname, desc, bf_.loc(br_))
+        else:
+            rep.bad("C05.R13", bf_.qname, desc, bf_.loc(br_), [f"{bf_.loc(br_)}: `{unparse(t_, 60)}` is true for a dataclass TYPE as well",
+                    "dds_hash(SomeDataclass) (a class passed as argument / kept in a variable) reads the fields on the class: AttributeError, a low-level exception where "
+                    "TYPE_NOT_SUPPORTED is due"], "dataclass-type", what="a dataclass type given as a value makes the hasher raise AttributeError")
+    rep.floor("C05.R13", n13, 1)
+
+    # ---- R14: an option that may be None is tested before it is compared -------------------------------------------------------------
+    rep.rule("C05.R14", "an option whose declared types include NoneType is compared (<, >) only where it was seen not to be None: `hash.max_sequence_size` accepts None, "
+                        "and `len(x) > None` is a TypeError")
+    n14 = 0
+    cfgmod = prog.modules.get("dds._config")
+    none_keys = set()
+    for c_ in (ast.walk(cfgmod.tree) if cfgmod is not None else []):
+        if isinstance(c_, ast.Call) and unparse(c_.func).split(".")[-1] in ("Option", "_flag_option"):
+            kws = {k.arg: k.value for k in c_.keywords}
+            key_ = kws.get("key")
+            tys = kws.get("types")
+            if isinstance(key_, ast.Constant) and tys is not None and "type(None)" in unparse(tys, 200):
+                none_keys.add(key_.value)
+    for f_ in prog.funcs.values():
+        if not f_.module.name.startswith("dds") or f_.module is cfgmod:
+            continue
+        for st in f_.own_nodes():
+            if isinstance(st, (ast.Assign, ast.AnnAssign)) and isinstance(st.value, ast.Call) and unparse(st.value.func).split(".")[-1] == "get_option" and st.value.args \
+                    and isinstance(st.value.args[0], ast.Constant) and st.value.args[0].value in none_keys:
+                tg = st.targets[0] if isinstance(st, ast.Assign) else st.target
+                if not isinstance(tg, ast.Name):
+                    continue
+                var = tg.id
+                scopes_ = [f_] + list(f_.nested.values())
+                for g_ in scopes_:
+                    for cmp_ in g_.own_nodes():
+                        if isinstance(cmp_, ast.Compare) and any(isinstance(o, (ast.Lt, ast.LtE, ast.Gt, ast.GtE)) for o in cmp_.ops) and any(
+                                isinstance(x, ast.Name) and x.id == var for x in [cmp_.left] + list(cmp_.comparators)):
+                            n14 += 1
+                            par = g_.module.parent.get(cmp_)
+                            guarded = isinstance(par, ast.BoolOp) and isinstance(par.op, ast.And) and any(
+                                isinstance(v_, ast.Compare) and isinstance(v_.ops[0], ast.IsNot) and unparse(v_.left) == var and unparse(v_.comparators[0]) == "None"
+                                for v_ in par.values[:par.values.index(cmp_)])
+                            if not guarded:
+                                gcfg = cfg_of(g_)
+                                nn = [b for b in gcfg.nodes if b.kind == "branch" and isinstance(b.ast, ast.Compare) and unparse(b.ast.left) == var and unparse(b.ast.comparators[0]) == "None"
+                                      and ((isinstance(b.ast.ops[0], ast.IsNot) and b.label == "T") or (isinstance(b.ast.ops[0], ast.Is) and b.label == "F"))]
+                                guarded = bool(nn) and dominated(ctx, g_, cmp_, nn) is None
+                            desc = f"`{unparse(cmp_, 40)}` compares the option `{st.value.args[0].value}` only when it is not None"
+                            if guarded:
+                                rep.ok("C05.R14", g_.qname, desc, g_.loc(cmp_))
+                            else:
+                                rep.bad("C05.R14", g_.qname, desc, g_.loc(cmp_), [f"{f_.loc(st)}: `{var}` is the value of an option that accepts None",
+                                        f"{g_.loc(cmp_)}: `{unparse(cmp_, 50)}` raises TypeError when it is None: after dds.set_option('{st.value.args[0].value}', None) hashing any list / dict / "
+                                        "dataclass ends with a low-level exception"], stmt_key(cmp_), what="an option that accepts None is compared without a None test")
+    rep.floor("C05.R14", n14, 1)
     rep.rule("C05.R8", "the digest helpers hash their argument itself (an encode at most between the parameter and hashlib)")
     n8 = algo_preimage_rule(ctx, "C05.R8")
     rep.floor("C05.R8", n8, 2)
